@@ -377,6 +377,14 @@ PagLinkSessionClauses(post, o, S) ==
     <<"C10.token",    r.tokenRoundTrip>>
   >>)
 
+(* C14: no read-only request changes a byte of either store (hashes and the  *)
+(* count of storage writes are taken by the harness around every call)      *)
+ReadOnlyClauses(q) ==
+  FailNamesQ(<<
+    <<"C14.same",   \A j \in 1..Len(q.ro) : q.ro[j].changed = 0>>,
+    <<"C14.nowrite", \A j \in 1..Len(q.ro) : q.ro[j].wrote = 0>>
+  >>)
+
 QueryClauses(post, rm, d, S) ==
   LET q == S.q  o == S.obs IN
      (IF Has(q, "lookup")  THEN LookupClauses(post, q) ELSE <<>>)
@@ -391,4 +399,6 @@ QueryClauses(post, rm, d, S) ==
   \o (IF Has(q, "top")     THEN TopClauses(o, q) ELSE <<>>)
   \o (IF Has(q, "pag")     THEN PagSessionClauses(post, o, S) ELSE <<>>)
   \o (IF Has(q, "pagl")    THEN PagLinkSessionClauses(post, o, S) ELSE <<>>)
+  \o (IF Has(q, "ro")      THEN ReadOnlyClauses(q) ELSE <<>>)
+  \o (IF Has(q, "mmap")    THEN FailNamesQ(<< <<"C15.mmap", q.mmap.bad = 0>> >>) ELSE <<>>)
 =============================================================================
